@@ -273,6 +273,8 @@ def run(repo: Repo, rep: Report, tier: str) -> None:
     from ..core.report import Only
     from . import c01 as _c01
     _c01._r01_5(repo, Only(rep, {"R01.5"}))
+    from ..core import siblings as _sib2
+    _sib2.check_own_method_tests(repo, rep, "R14.11")
 
 def _forwarding(repo: Repo, rep: Report) -> None:
     """R14.6: the flag lists used for re-dispatch forward every parameter under its own name."""
@@ -341,3 +343,6 @@ def _mixin(repo: Repo, rep: Report) -> None:
 _ADDENDUM = ' R14.8: ownership -- every in-place mutation in the library acts on a container the function owns or on a designed shared store (table with reasons); attribute stores on parameter objects happen only after the parameter was rebound to a fresh object. R14.9: per-builder stores (attrs_registry, globals, ...) are bound only to fresh containers or constructor parameters. R14.10: emitted CodeBuilder(...) calls pass for every keyword the run-time value of that role. Borrowed: R01.5.'
 EXPLANATION += _ADDENDUM
 LEVEL_TEXT += _ADDENDUM
+_ADD6 = " R14.11: every guard of a nested add_pack_method / add_unpack_method asks for the class's own definition (get_class_that_defines_method), never hasattr."
+EXPLANATION += _ADD6
+LEVEL_TEXT += _ADD6
